@@ -27,7 +27,8 @@ def job(args):
     """runs in a worker: derive, export (tuples), return"""
     kind, part, fos, variant, order, block, idx = args
     import sys
-    sys.path.insert(0, "/repo")
+    import os
+    sys.path.insert(0, os.environ.get("VERIF_REPO", "/repo"))
     from adcgen import Operators, GroundState, IntermediateStates, Expr
     t0 = time.time()
     try:
